@@ -108,7 +108,7 @@ impl<'a, F: Field, CS: Assignment<F> + 'a + SyncDeps> Layouter<F>
 
         // Assign region cells.
         #[cfg(feature = "verif-hooks")]
-        crate::verif::enter_region(&name);
+        crate::verif::enter_region(&name, region_start);
         self.cs.enter_region(name);
         let mut region = SingleChipLayouterRegion::new(self, region_index.into());
         let result = {
